@@ -69,14 +69,14 @@ theorem ext_submitStep {p : Params} {s : St} {t : Nat} {r : St × Bool} (hr : r 
     · split at hr
       · split at hr
         · simp at hr
-        · split at hr <;> (simp at hr; subst hr; exact .same (by simp) (by simp))
-      · simp at hr; subst hr; exact .emit _ (.same (by simp) (by simp))
+        · split at hr
+          · simp at hr; subst hr; exact .emit _ (.same (by simp) (by simp))
+          · simp at hr; subst hr; exact .same (by simp) (by simp)
       · simp at hr; subst hr; exact .emit _ (.same (by simp) (by simp))
       · split at hr
         · simp at hr
         · simp at hr; subst hr; exact .same (by simp) (by simp)
       · simp at hr; subst hr; exact .emit _ (.same (by simp) (by simp))
-
 
 theorem ext_popOrCond {p : Params} {s s' : St} (hs : s' ∈ popOrCond s) : Ext p s s' := by
   unfold popOrCond at hs
@@ -91,24 +91,20 @@ theorem ext_dispStep {p : Params} {s s' : St} (hs : s' ∈ dispStep p s) : Ext p
   · split at hs
     · simp at hs
     · simp at hs; subst hs; exact .same rfl rfl
-  · split at hs
-    · simp at hs
-    · simp at hs; subst hs; exact .same rfl rfl
+  · simp at hs; subst hs; exact .same rfl rfl
   · split at hs
     · simp at hs
     · exact ext_popOrCond hs
   · split at hs
     · simp at hs
-    · split at hs <;> (simp at hs; subst hs; exact .same rfl rfl)
+    · simp at hs; subst hs; exact .same rfl rfl
+  · split at hs <;> (simp at hs; subst hs; exact .same rfl rfl)
   · simp at hs; subst hs; exact .same rfl rfl
   · split at hs
     · simp at hs
     · exact ext_popOrCond hs
   · split at hs
     · simp at hs; subst hs; exact .same (by simp) (by simp)
-    · simp at hs
-  · split at hs
-    · simp at hs; subst hs; exact .same rfl rfl
     · simp at hs
   · simp at hs; subst hs; exact .same rfl rfl
 
@@ -159,9 +155,14 @@ theorem ext_wStep {p : Params} {s : St} {w : WPc} {r : St × WPc} (hr : r ∈ wS
   | mark t dr =>
     simp only [wStep] at hr
     split at hr
-    · simp at hr; subst hr; exact .emit _ (.same (by simp) (by simp))
-    · simp at hr; subst hr; exact .emit _ (.same (by simp) (by simp))
+    · simp at hr; subst hr; unfold markDone; split <;> exact .emit _ (.same (by simp) (by simp))
+    · simp at hr; subst hr; unfold markDone; split <;> exact .emit _ (.same (by simp) (by simp))
     · simp at hr
+  | signal dr =>
+    simp only [wStep] at hr
+    split at hr
+    · simp at hr
+    · simp at hr; subst hr; exact .same rfl rfl
 
 theorem ext_runnerStep {p : Params} {s s' : St} (hs : s' ∈ runnerStep p s) : Ext p s s' := by
   unfold runnerStep at hs
@@ -206,31 +207,27 @@ theorem ext_clientStep {p : Params} {s : St} {c : Client} {r : St × Client} (hr
       · simp at hr; subst hr; exact .same rfl rfl
       · simp at hr
     · simp at hr; subst hr; exact .same rfl rfl
-  case sdBcast => simp [clientStep] at hr; subst hr; exact .same rfl rfl
-  case sdUnlock => simp [clientStep] at hr; subst hr; exact .emit _ (.same rfl rfl)
-  case st0 =>
+  case sdUnlockS => simp [clientStep] at hr; subst hr; exact .same rfl rfl
+  case sdUnlockN => simp [clientStep] at hr; subst hr; exact .emit _ (.same rfl rfl)
+  case sdBcast =>
     simp only [clientStep] at hr
     split at hr
-    · simp at hr; subst hr; exact .same rfl rfl
+    · simp at hr
+    · simp at hr; subst hr; exact .emit _ (.same rfl rfl)
+  case stTry =>
+    simp only [clientStep] at hr
+    split at hr
+    · simp at hr
     · split at hr
-      · simp at hr
-      · simp at hr; subst hr; exact .same rfl rfl
-  case stWait1 =>
+      · simp at hr; subst hr; exact .emit _ (.same rfl rfl)
+      · split at hr
+        · simp at hr; subst hr; exact .emit _ (.same rfl rfl)
+        · simp at hr; subst hr; exact .same rfl rfl
+  case stWait =>
     simp only [clientStep] at hr
     split at hr
     · simp at hr; subst hr; exact .same rfl rfl
     · simp at hr
-  case stLock =>
-    simp only [clientStep] at hr
-    split at hr
-    · simp at hr
-    · simp at hr; subst hr; exact .same rfl rfl
-  case stWait2 =>
-    simp only [clientStep] at hr
-    split at hr
-    · simp at hr; subst hr; exact .same rfl rfl
-    · simp at hr
-  case stUnlock => simp [clientStep] at hr; subst hr; exact .emit _ (.same rfl rfl)
   case wc =>
     simp only [clientStep] at hr
     split at hr
